@@ -133,6 +133,44 @@ pub fn slice_session(data: &[u8], sh: bool, sched: &[Resp], is_async: bool, cap:
     let s = slices.borrow().clone();
     (l, s)
 }
+/// growth beyond the listed properties (./check extras): a caller that goes on calling after an error.  The readers continue at the
+/// position the source stands at; whatever they deliver then, repeated calls must reach the end of the stream (at most one call per
+/// byte of the stream plus a few) and never panic.
+pub fn continue_event(data: &[u8], sh: bool, sched: &[Resp], is_async: bool) -> J {
+    let log = Rc::new(RefCell::new(vec![]));
+    let script = Script { data: data.to_vec(), pos: 0, sched: sched.to_vec(), i: 0, log: log.clone() };
+    let limit = data.len() + 8;
+    let outs = Rc::new(RefCell::new(Vec::<J>::new()));
+    let outs2 = outs.clone();
+    let r = catch_unwind(AssertUnwindSafe(move || {
+        let mut ended = false;
+        if !is_async {
+            let mut rd = DltMessageReader::new(script, sh);
+            for _ in 0..limit {
+                match rd.next_message_slice() {
+                    Ok(s) if s.is_empty() => { ended = true; break; }
+                    Ok(s) => outs2.borrow_mut().push(json!(s.len())),
+                    Err(_) => outs2.borrow_mut().push(json!("err")),
+                }
+            }
+        } else {
+            let mut rd = DltStreamReader::new(script, sh);
+            futures::executor::block_on(async {
+                for _ in 0..limit {
+                    match rd.next_message_slice().await {
+                        Ok(s) if s.is_empty() => { ended = true; break; }
+                        Ok(s) => outs2.borrow_mut().push(json!(s.len())),
+                        Err(_) => outs2.borrow_mut().push(json!("err")),
+                    }
+                }
+            });
+        }
+        ended
+    }));
+    let (v, ended) = match r { Ok(e) => ("ok", e), Err(_) => ("panic", false) };
+    let o = outs.borrow().clone();
+    json!({"op": "cont", "async": is_async, "sh": sh, "n": data.len(), "calls": o.len(), "res": {"v": v, "ended": ended}})
+}
 /// the same through read_message (parse included); results projected like slice parse results
 pub fn message_session(data: &[u8], sh: bool, sched: &[Resp], is_async: bool, cfg: Option<&DltFilterConfig>) -> Vec<J> {
     let log = Rc::new(RefCell::new(vec![]));
@@ -375,6 +413,26 @@ pub fn record(mode: &str, seed: u64, n: usize, out: &mut Out) {
             }
             let inter: Vec<Resp> = (0..2 * len).map(|i| if i % 2 == 0 { Resp::Retry } else { Resp::Bytes(1) }).collect();
             out.emit(reader_event(&data, sh, &inter, mode == "async", None, None), true);
+        }
+        // extras: sessions that go on after errors
+        "cont" => {
+            for i in 0..n {
+                let sh = r.coin();
+                let mut data = if i % 3 == 0 { hostile_stream(&mut r, sh) } else { random_stream(&mut r, sh) };
+                if i % 4 == 1 {
+                    // a header declaring a length of 0..3 between complete messages (garbage, zero padding)
+                    let mut h = vec![0u8; if sh { 16 } else { 0 }];
+                    if sh { h[..4].copy_from_slice(b"DLT\x01"); }
+                    h.extend([if r.coin() { 0x21 } else { 0 }, 0, 0, r.below(4) as u8]);
+                    data.extend(h);
+                    data.extend(gen::ser(&gen::message(&mut r, &MsgOpts { storage: Some(sh), big: 6, max_args: 1 })));
+                    data.extend(gen::ser(&gen::message(&mut r, &MsgOpts { storage: Some(sh), big: 6, max_args: 1 })));
+                }
+                let sched = random_sched(&mut r);
+                out.calls += 2;
+                out.emit(continue_event(&data, sh, &sched, false), data.len() > 8);
+                out.emit(continue_event(&data, sh, &sched, true), data.len() > 8);
+            }
         }
         // C08: both readers on the same bytes and schedule
         "pair" => {
